@@ -243,6 +243,13 @@ macro_rules! c10_bodies {
             let fw = ok_or_forget(FuncCodeWriter::<$e, MS<$e, true>>::new(code));
             let fr = ok_or_forget(FuncCodeReader::<$e, MS<$e, true>>::new(code));
             let fl = ok_or_forget(FuncCodeLen::new(code));
+            if K > 10 {
+                // beyond the documented set a dispatcher may refuse; if it accepts, it must perform that code
+                crate::cover!(s, true, "reached");
+                if fw.is_none() || fr.is_none() || fl.is_none() {
+                    return;
+                }
+            }
             assert!(fw.is_some() && fr.is_some() && fl.is_some(), "supported code rejected by a function-pointer dispatcher");
             let (fw, fr, fl) = (fw.unwrap(), fr.unwrap(), fl.unwrap());
             compare!(s, $e, FAM, K,
@@ -1361,7 +1368,7 @@ crate::harnesses! {
     #[kani::stub(alloc::fmt::format, stub_format)]
     #[kani::stub(std::string::ToString::to_string, stub_to_string)]
     #[kani::stub(std::backtrace::Backtrace::capture, stub_backtrace_capture)]
-    c10_func_rej_zeta11_be (quick, "FuncCodeWriter/Reader/Len::new(Codes::Zeta param 11)", "unsupported parameter must be rejected") => func_rej_be::<_, {ZETA}, 11>;
+    c10_func_zeta11_be (quick, "FuncCodeWriter/Reader/Len::new(Codes::Zeta param 11)", "parameter beyond the documented set: either rejected, or performs exactly that code") => func_be::<_, {ZETA}, 11>;
     #[kani::unwind(12)]
     c10_func_pi0_be (thorough, "FuncCodeWriter/Reader/Len::new(Codes::Pi param 0), BE stream", "function-pointer dispatch vs the code own method; symbolic value") => func_be::<_, {PI}, 0>;
     #[kani::unwind(12)]
@@ -1409,7 +1416,7 @@ crate::harnesses! {
     #[kani::stub(alloc::fmt::format, stub_format)]
     #[kani::stub(std::string::ToString::to_string, stub_to_string)]
     #[kani::stub(std::backtrace::Backtrace::capture, stub_backtrace_capture)]
-    c10_func_rej_pi11_be (quick, "FuncCodeWriter/Reader/Len::new(Codes::Pi param 11)", "unsupported parameter must be rejected") => func_rej_be::<_, {PI}, 11>;
+    c10_func_pi11_be (quick, "FuncCodeWriter/Reader/Len::new(Codes::Pi param 11)", "parameter beyond the documented set: either rejected, or performs exactly that code") => func_be::<_, {PI}, 11>;
     #[kani::unwind(12)]
     c10_func_golomb1_be (thorough, "FuncCodeWriter/Reader/Len::new(Codes::Golomb param 1), BE stream", "function-pointer dispatch vs the code own method; symbolic value") => func_be::<_, {GOLOMB}, 1>;
     #[kani::unwind(12)]
@@ -1453,7 +1460,7 @@ crate::harnesses! {
     #[kani::stub(alloc::fmt::format, stub_format)]
     #[kani::stub(std::string::ToString::to_string, stub_to_string)]
     #[kani::stub(std::backtrace::Backtrace::capture, stub_backtrace_capture)]
-    c10_func_rej_golomb11_be (quick, "FuncCodeWriter/Reader/Len::new(Codes::Golomb param 11)", "unsupported parameter must be rejected") => func_rej_be::<_, {GOLOMB}, 11>;
+    c10_func_golomb11_be (quick, "FuncCodeWriter/Reader/Len::new(Codes::Golomb param 11)", "parameter beyond the documented set: either rejected, or performs exactly that code") => func_be::<_, {GOLOMB}, 11>;
     #[kani::unwind(12)]
     c10_func_exp_golomb0_be (thorough, "FuncCodeWriter/Reader/Len::new(Codes::ExpGolomb param 0), BE stream", "function-pointer dispatch vs the code own method; symbolic value") => func_be::<_, {EXP_GOLOMB}, 0>;
     #[kani::unwind(12)]
@@ -1501,7 +1508,7 @@ crate::harnesses! {
     #[kani::stub(alloc::fmt::format, stub_format)]
     #[kani::stub(std::string::ToString::to_string, stub_to_string)]
     #[kani::stub(std::backtrace::Backtrace::capture, stub_backtrace_capture)]
-    c10_func_rej_exp_golomb11_be (quick, "FuncCodeWriter/Reader/Len::new(Codes::ExpGolomb param 11)", "unsupported parameter must be rejected") => func_rej_be::<_, {EXP_GOLOMB}, 11>;
+    c10_func_exp_golomb11_be (quick, "FuncCodeWriter/Reader/Len::new(Codes::ExpGolomb param 11)", "parameter beyond the documented set: either rejected, or performs exactly that code") => func_be::<_, {EXP_GOLOMB}, 11>;
     #[kani::unwind(12)]
     c10_func_rice0_be (thorough, "FuncCodeWriter/Reader/Len::new(Codes::Rice param 0), BE stream", "function-pointer dispatch vs the code own method; symbolic value") => func_be::<_, {RICE}, 0>;
     #[kani::unwind(12)]
@@ -1549,7 +1556,7 @@ crate::harnesses! {
     #[kani::stub(alloc::fmt::format, stub_format)]
     #[kani::stub(std::string::ToString::to_string, stub_to_string)]
     #[kani::stub(std::backtrace::Backtrace::capture, stub_backtrace_capture)]
-    c10_func_rej_rice11_be (quick, "FuncCodeWriter/Reader/Len::new(Codes::Rice param 11)", "unsupported parameter must be rejected") => func_rej_be::<_, {RICE}, 11>;
+    c10_func_rice11_be (quick, "FuncCodeWriter/Reader/Len::new(Codes::Rice param 11)", "parameter beyond the documented set: either rejected, or performs exactly that code") => func_be::<_, {RICE}, 11>;
     #[kani::stub(alloc::fmt::format, stub_format)]
     #[kani::stub(std::string::ToString::to_string, stub_to_string)]
     #[kani::stub(std::backtrace::Backtrace::capture, stub_backtrace_capture)]
